@@ -125,6 +125,10 @@ def gen_strings(rng, tier):
         S6 += ["服务器" + a + "端口", "сервер" + a, "١" + a, a + "é", "ü" + a + " x", a + "٣", "_" + a + "_"]
     # IPv6 values shaped like prefix masks are addresses like any other (only IPv4 has netmasks that are left alone)
     S6 += ["8000::", "ff00::/8", "ffff:ffff:ffff:ffff::", "ipv6 route ffff:ffff:ffff:ff00::/56 c000::", "FFFF:FFFF::", "fe00::"]
+    # the four non-ASCII characters whose case folding is an ASCII letter are delimiters like every other non-ASCII character
+    for ch in "\u0130\u0131\u017f\u212a":
+        S4 += [ch + "11.22.33.44", "11.22.33.45" + ch, "x " + ch + "11.22.33.46" + ch + " y"]
+        S6 += [ch + "2001:db8::1", "2001:db8::2" + ch, "x " + ch + "2001:DB8::3" + ch + " y", ch + "fe80::1"]
     # realistic lines with several tokens
     words = ["ip", "address", "neighbor", "remote-as", "description", "v1.2.3.4.5", "1.2.3", "host11.22.33.44", "11.22.33.44.example.net",
              "255.255.255.0", "0.0.0.255", "10.1.1.1", "010.001.002.003", "300.1.1.1", "1.2.3.4/24", "1.2.3.4/999", "(1.2.3.4)", "1.2.3.4,5.6.7.8",
